@@ -107,6 +107,7 @@ func zvCFollow(q vrt.ConcInst) bool {
 }
 
 func zvCRun(pid string, kinds []int, share, lin bool) {
+	vrt.ConcShapes = 2
 	vrt.ConcSelectors = 2
 	vrt.MapOrderMode(2) // maps are ranged in insertion order here: order-dependence is C08/C14's subject
 	stored := [2]bool{vrt.Choice(2) == 1, vrt.Choice(2) == 1}
